@@ -30,7 +30,10 @@ for x in letters:
     meta = json.load(open(dst + "/meta.json"))
     ok = out.get("applies") and out.get("tests_rc") in (0, 1) and "failed" not in out.get("tests_tail", "").replace("1 failed", "") \
         and out.get("demo_clean_rc") == 0 and out.get("demo_mutant_rc") not in (0, None)
-    meta["origin"] = f"independent sub-agent, round {rnd} (property text, scratch worktree, one-line summaries of earlier changes to avoid, and a description of the harness as a randomised monitor that also drives histories)"
+    if rnd == "10":
+        meta["origin"] = "independent sub-agent, round 10 (only the text of the property and a scratch worktree of /repo; one change per agent under a 8-9 minute limit)"
+    else:
+      meta["origin"] = f"independent sub-agent, round {rnd} (property text, scratch worktree, one-line summaries of earlier changes to avoid, and a description of the harness as a randomised monitor that also drives histories)"
     meta["verified_by_me"] = {"repo_tests_tail": out.get("tests_tail"), "demo_passes_without": out.get("demo_clean_rc") == 0,
                               "demo_fails_with": out.get("demo_mutant_rc") not in (0, None),
                               "how": "tools/seedtest.py <dir> --verify (scratch worktree of /repo HEAD under /tmp, removed afterwards)"}
